@@ -13,6 +13,7 @@ import (
 func init() { Registry["C11"] = c11 }
 
 func c11(r *Report) {
+	defer c11Seed8(r)
 	defer c11Seed5(r)
 	defer c11Seed6(r)
 	p := r.P
